@@ -384,3 +384,69 @@ func verifC14RoundingLarge() {
 	vAssert("int-large", err == nil && ok && got == tr)
 	vReach("end")
 }
+
+func init() {
+	verifRegister("verifC14ParseInt", verifC14ParseInt)
+}
+
+// verifC14ParseInt: parseint(text, base) on concrete texts with a symbolic base: an error exactly when the base is
+// not a whole number in 2..62 or the text is not a numeral of that base; otherwise the value of the numeral
+// (reference: a plain digit loop; bases up to 36, where letters are case-insensitive digits).
+func verifC14ParseInt() {
+	texts := []string{"0", "-1", "7", "10", "ff", "FF", "z", "-zz", "", "+5", " 1", "1_0", "0x1f", "-", "12a", "101"}
+	text := texts[vChoice("text", len(texts))]
+	base := sNumber("base", 4*70)
+	r, err := ParseIntFunc.Call([]cty.Value{cty.StringVal(text), base.v})
+	vAssert("parseint-no-internal-panic", nNoPanicError(err))
+	bw, bi := base.whole()
+	if !bw || bi < 2 || bi > 62 {
+		vAssert("parseint-bad-base-is-error", err != nil)
+		vReach("end-bad-base")
+		return
+	}
+	if bi <= 36 {
+		want, ok := nParseRef(text, bi)
+		vAssert("parseint-fails-exactly-when-not-a-numeral", (err == nil) == ok)
+		if err == nil && ok {
+			vAssert("parseint-value", sIsInt(r, want))
+		}
+	}
+	vReach("end")
+}
+
+// nParseRef: the value of text as a numeral of the given base (2..36): an optional sign followed by one or more digits
+// 0-9, a-z / A-Z below the base; nothing else.
+func nParseRef(text string, base int64) (int64, bool) {
+	i := 0
+	neg := false
+	if i < len(text) && (text[i] == '+' || text[i] == '-') {
+		neg = text[i] == '-'
+		i++
+	}
+	if i == len(text) {
+		return 0, false
+	}
+	v := int64(0)
+	for ; i < len(text); i++ {
+		c := text[i]
+		var d int64
+		switch {
+		case c >= '0' && c <= '9':
+			d = int64(c - '0')
+		case c >= 'a' && c <= 'z':
+			d = int64(c-'a') + 10
+		case c >= 'A' && c <= 'Z':
+			d = int64(c-'A') + 10
+		default:
+			return 0, false
+		}
+		if d >= base {
+			return 0, false
+		}
+		v = v*base + d
+	}
+	if neg {
+		v = -v
+	}
+	return v, true
+}
